@@ -255,13 +255,17 @@ deriving Repr
 
 def M (α : Type) := St → St × Res α
 
+def M.pure' {α : Type} (a : α) : M α := fun s => (s, .ok a)
+
+def M.bind' {α β : Type} (m : M α) (f : α → M β) : M β := fun s =>
+  match m s with
+  | (s', .ok a) => f a s'
+  | (s', .http c) => (s', .http c)
+  | (s', .py e) => (s', .py e)
+
 instance : Monad M where
-  pure a := fun s => (s, .ok a)
-  bind m f := fun s =>
-    match m s with
-    | (s', .ok a) => f a s'
-    | (s', .http c) => (s', .http c)
-    | (s', .py e) => (s', .py e)
+  pure := M.pure'
+  bind := M.bind'
 
 def liftR {α : Type} (r : Res α) : M α := fun s => (s, r)
 def getSt : M St := fun s => (s, .ok s)
@@ -744,165 +748,187 @@ def pathOpt (a : Args) : Option (List String) :=
   | some [] => none
   | x => x
 
-def dispatch (ep : String) (a : Args) (r : Req) : M Out :=
-  match ep with
-  | "not_implemented" => liftR (raiseOf "not_implemented" 0)
-  -- shells
-  | "get_aas_all" => do
-    let s ← getSt
-    Out.resp <$> listPage ep r ((allOfKind s .shell).map .obj)
-  | "post_aas" => Out.resp <$> postObj ep .shell r
-  | "get_aas" => Out.resp <$> getObj ep a.aasId .shell r
-  | "put_aas" => Out.resp <$> putObj ep a.aasId .shell r
-  | "delete_aas" => Out.resp <$> deleteObj ep a.aasId .shell r
-  | "get_aas_submodel_refs" => do
-    let o ← getObjTs a.aasId .shell
-    match o with
-    | .shell _ _ _ refs => Out.resp <$> listPage ep r (refs.map .ref)
-    | _ => liftR (.py .unknownClass)
-  | "post_aas_submodel_refs" => do
-    let o ← getObjTs a.aasId .shell
-    let p ← liftR (requestBody ep r)
-    match o, p with
-    | .shell i s t refs, .ref x =>
-      if refs.contains x then liftR (raiseOf ep 0)
-      else do
-        let o' := Obj.shell i s t (refs ++ [x])
-        live a.aasId o'
-        commitObj (commitsOf ep) a.aasId o'
-        pure (.resp (mkResp ep 0 r none (fun _ => .item (.ref x))))
-    | _, _ => liftR (.py .unknownClass)
-  | "delete_aas_submodel_refs_specific" => do
-    let o ← getObjTs a.aasId .shell
-    match o with
-    | .shell i s t refs =>
-      if ¬ refs.contains a.smId then liftR (raiseOf "_get_submodel_reference" 0)
-      else do
-        let o' := Obj.shell i s t (refs.erase a.smId)
-        live a.aasId o'
-        commitObj (commitsOf ep) a.aasId o'
-        pure (.resp (mkResp ep 0 r none (fun _ => .empty)))
-    | _ => liftR (.py .unknownClass)
-  -- submodels
-  | "get_submodel_all" | "get_submodel_all_metadata" => do
-    let s ← getSt
-    Out.resp <$> listPage ep r ((allOfKind s .sm).map .obj)
-  | "post_submodel" => Out.resp <$> postObj ep .sm r
-  | "get_submodel" | "get_submodels_metadata" => Out.resp <$> getObj ep a.smId .sm r
-  | "put_submodel" => Out.resp <$> putObj ep a.smId .sm r
-  | "delete_submodel" => Out.resp <$> deleteObj ep a.smId .sm r
-  -- submodel elements
-  | "get_submodel_submodel_elements" | "get_submodel_submodel_elements_metadata" => do
-    let sm ← getObjTs a.smId .sm
-    Out.resp <$> listPage ep r (sm.root.ch.map .elem)
-  | "get_submodel_submodel_elements_id_short_path" | "get_submodel_submodel_elements_id_short_path_metadata" => do
-    let sm ← getObjTs a.smId .sm
-    let e ← liftR (getNested sm.root (a.idShorts.getD []))
-    pure (.resp (mkResp ep 0 r none (fun st => .item (stripIf st (.elem e)))))
-  | "post_submodel_submodel_elements_id_short_path" => do
-    let (sm, path, parent) ← getSmOrNested a
-    if ¬ parent.isNamespace then liftR (raiseOf ep 0)
+def getRefs (ep : String) (a : Args) (r : Req) : M Resp := do
+  let o ← getObjTs a.aasId .shell
+  match o with
+  | .shell _ _ _ refs => listPage ep r (refs.map .ref)
+  | _ => liftR (.py .unknownClass)
+
+def postRef (ep : String) (a : Args) (r : Req) : M Resp := do
+  let o ← getObjTs a.aasId .shell
+  let p ← liftR (requestBody ep r)
+  match o, p with
+  | .shell i s t refs, .ref x =>
+    if refs.contains x then liftR (raiseOf ep 0)
     else do
-      let p ← liftR (requestBody ep r)
-      match p with
-      | .elem n =>
-        let parent' ← liftR (catching ep (addReferable parent n))
-        let sm' := smWithRoot sm (modifyAt (fun _ => parent') sm.root path)
-        live a.smId sm'
-        commitObj (commitsOf ep) a.smId sm'
-        let _ ← getObjTs a.smId .sm
-        pure (.resp (mkResp ep 0 r (some (.elem sm.id ((a.idShorts.getD []) ++ [n.idShort.getD ""])))
-          (fun st => .item (stripIf st (.elem (n.withKey (n.idShort.getD "")))))))
-      | _ => liftR (.py .unknownClass)
-  | "put_submodel_submodel_elements_id_short_path" => do
-    let sm ← getObjTs a.smId .sm
-    let path := a.idShorts.getD []
-    let e ← liftR (getNested sm.root path)
+      let o' := Obj.shell i s t (refs ++ [x])
+      live a.aasId o'
+      commitObj (commitsOf ep) a.aasId o'
+      pure (mkResp ep 0 r none (fun _ => .item (.ref x)))
+  | _, _ => liftR (.py .unknownClass)
+
+def deleteRef (ep : String) (a : Args) (r : Req) : M Resp := do
+  let o ← getObjTs a.aasId .shell
+  match o with
+  | .shell i s t refs =>
+    if ¬ refs.contains a.smId then liftR (raiseOf "_get_submodel_reference" 0)
+    else do
+      let o' := Obj.shell i s t (refs.erase a.smId)
+      live a.aasId o'
+      commitObj (commitsOf ep) a.aasId o'
+      pure (mkResp ep 0 r none (fun _ => .empty))
+  | _ => liftR (.py .unknownClass)
+
+def listElems (ep : String) (a : Args) (r : Req) : M Resp := do
+  let sm ← getObjTs a.smId .sm
+  listPage ep r (sm.root.ch.map .elem)
+
+def getElem (ep : String) (a : Args) (r : Req) : M Resp := do
+  let sm ← getObjTs a.smId .sm
+  let e ← liftR (getNested sm.root (a.idShorts.getD []))
+  pure (mkResp ep 0 r none (fun st => .item (stripIf st (.elem e))))
+
+def postElem (ep : String) (a : Args) (r : Req) : M Resp := do
+  let (sm, path, parent) ← getSmOrNested a
+  if ¬ parent.isNamespace then liftR (raiseOf ep 0)
+  else do
     let p ← liftR (requestBody ep r)
     match p with
     | .elem n =>
-      liftR (expectSameElem e n)
-      let (e', err) := updateFrom e n
-      let sm' := smWithRoot sm (modifyAt (fun _ => e') sm.root path)
+      let parent' ← liftR (catching ep (addReferable parent n))
+      let sm' := smWithRoot sm (modifyAt (fun _ => parent') sm.root path)
       live a.smId sm'
-      match err with
-      | some x => liftR (.py x)
-      | none =>
-        commitObj (commitsOf ep) a.smId sm'
-        pure (.resp (mkResp ep 0 r none (fun _ => .empty)))
+      commitObj (commitsOf ep) a.smId sm'
+      pure (mkResp ep 0 r (some (.elem sm.id ((a.idShorts.getD []) ++ [n.idShort.getD ""])))
+        (fun st => .item (stripIf st (.elem (n.withKey (n.idShort.getD ""))))))
     | _ => liftR (.py .unknownClass)
-  | "delete_submodel_submodel_elements_id_short_path" => do
-    let (sm, path, e) ← getSmOrNested a
-    -- `sm_or_se.parent`: None for the submodel itself → `_expect_namespace` → BadRequest
-    if path.isEmpty then liftR (raiseOf "_expect_namespace" 0)
+
+def putElem (ep : String) (a : Args) (r : Req) : M Resp := do
+  let sm ← getObjTs a.smId .sm
+  let path := a.idShorts.getD []
+  let e ← liftR (getNested sm.root path)
+  let p ← liftR (requestBody ep r)
+  match p with
+  | .elem n =>
+    liftR (expectSameElem e n)
+    let (e', err) := updateFrom e n
+    let sm' := smWithRoot sm (modifyAt (fun _ => e') sm.root path)
+    live a.smId sm'
+    match err with
+    | some x => liftR (.py x)
+    | none =>
+      commitObj (commitsOf ep) a.smId sm'
+      pure (mkResp ep 0 r none (fun _ => .empty))
+  | _ => liftR (.py .unknownClass)
+
+def deleteElem (ep : String) (a : Args) (r : Req) : M Resp := do
+  let (sm, path, e) ← getSmOrNested a
+  -- `sm_or_se.parent`: None for the submodel itself → `_expect_namespace` → BadRequest
+  if path.isEmpty then liftR (raiseOf "_expect_namespace" 0)
+  else
+    match getReferable sm.root path.dropLast, e.idShort with
+    | .ok parent, some k => do
+      let parent' ← liftR (catching "_namespace_submodel_element_op" (removeReferable parent k))
+      let sm' := smWithRoot sm (modifyAt (fun _ => parent') sm.root path.dropLast)
+      live a.smId sm'
+      commitObj (commitsOf ep) a.smId sm'
+      pure (mkResp ep 0 r none (fun _ => .empty))
+    | _, _ => liftR (catching "_namespace_submodel_element_op" (.py .keyError))
+
+def getQual (ep : String) (a : Args) (r : Req) : M Resp := do
+  let (_, _, e) ← getSmOrNested a
+  match a.qType with
+  | none => pure (mkResp ep 0 r none (fun _ => .items (e.quals.map (fun (t, v) => .qual t v))))
+  | some t =>
+    match AList.get t e.quals with
+    | some v => pure (mkResp ep 1 r none (fun _ => .item (.qual t v)))
+    | none => liftR (catching "_qualifiable_qualifier_op" (.py .keyError))
+
+def postQual (ep : String) (a : Args) (r : Req) : M Resp := do
+  let (sm, path, e) ← getSmOrNested a
+  let p ← liftR (requestBody ep r)
+  match p with
+  | .qual t v =>
+    if AList.has t e.quals then liftR (raiseOf ep 0)
     else do
-      let ppath := path.dropLast
-      match getReferable sm.root ppath with
-      | .ok parent =>
-        match e.idShort with
-        | none => liftR (catching "_namespace_submodel_element_op" (.py .keyError))
-        | some k =>
-          let parent' ← liftR (catching "_namespace_submodel_element_op" (removeReferable parent k))
-          let sm' := smWithRoot sm (modifyAt (fun _ => parent') sm.root ppath)
-          live a.smId sm'
-          commitObj (commitsOf ep) a.smId sm'
-          pure (.resp (mkResp ep 0 r none (fun _ => .empty)))
-      | _ => liftR (.py .unknownClass)
-  -- qualifiers
-  | "get_submodel_submodel_element_qualifiers" => do
-    let (_, _, e) ← getSmOrNested a
-    match a.qType with
-    | none => pure (.resp (mkResp ep 0 r none (fun _ => .items (e.quals.map (fun (t, v) => .qual t v)))))
-    | some t =>
-      match AList.get t e.quals with
-      | some v => pure (.resp (mkResp ep 1 r none (fun _ => .item (.qual t v))))
-      | none => liftR (catching "_qualifiable_qualifier_op" (.py .keyError))
-  | "post_submodel_submodel_element_qualifiers" => do
-    let (sm, path, e) ← getSmOrNested a
-    let p ← liftR (requestBody ep r)
-    match p with
-    | .qual t v =>
-      if AList.has t e.quals then liftR (raiseOf ep 0)
-      else do
-        let sm' := smWithRoot sm (modifyAt (fun x => x.withQuals (x.quals ++ [(t, v)])) sm.root path)
-        live a.smId sm'
-        commitObj (commitsOf ep) a.smId sm'
-        pure (.resp (mkResp ep 0 r (some (.qual a.smId (pathOpt a) t)) (fun _ => .item (.qual t v))))
-    | _ => liftR (.py .unknownClass)
-  | "put_submodel_submodel_element_qualifiers" => do
-    let (sm, path, e) ← getSmOrNested a
-    let p ← liftR (requestBody ep r)
-    match p, a.qType with
-    | .qual t v, some qt =>
-      if ¬ AList.has qt e.quals then liftR (catching "_qualifiable_qualifier_op" (.py .keyError))
-      else if qt ≠ t ∧ AList.has t e.quals then liftR (raiseOf ep 0)
-      else do
-        let sm' := smWithRoot sm (modifyAt (fun x => x.withQuals (AList.erase qt x.quals ++ [(t, v)])) sm.root path)
-        live a.smId sm'
-        commitObj (commitsOf ep) a.smId sm'
-        if qt ≠ t then pure (.resp (mkResp ep 0 r (some (.qual a.smId (pathOpt a) t)) (fun _ => .item (.qual t v))))
-        else pure (.resp (mkResp ep 1 r none (fun _ => .item (.qual t v))))
-    | _, _ => liftR (.py .unknownClass)
-  | "delete_submodel_submodel_element_qualifiers" => do
-    let (sm, path, e) ← getSmOrNested a
-    match a.qType with
-    | some qt =>
-      if ¬ AList.has qt e.quals then liftR (catching "_qualifiable_qualifier_op" (.py .keyError))
-      else do
-        let sm' := smWithRoot sm (modifyAt (fun x => x.withQuals (AList.erase qt x.quals)) sm.root path)
-        live a.smId sm'
-        commitObj (commitsOf ep) a.smId sm'
-        pure (.resp (mkResp ep 0 r none (fun _ => .empty)))
-    | none => liftR (.py .unknownClass)
-  -- concept descriptions
-  | "get_concept_description_all" => do
-    let s ← getSt
-    Out.resp <$> listPage ep r ((allOfKind s .cd).map .obj)
-  | "post_concept_description" => Out.resp <$> postObj ep .cd r
-  | "get_concept_description" => Out.resp <$> getObj ep a.cdId .cd r
-  | "put_concept_description" => Out.resp <$> putObj ep a.cdId .cd r
-  | "delete_concept_description" => Out.resp <$> deleteObj ep a.cdId .cd r
-  | _ => pure .unmodelled
+      let sm' := smWithRoot sm (modifyAt (fun x => x.withQuals (x.quals ++ [(t, v)])) sm.root path)
+      live a.smId sm'
+      commitObj (commitsOf ep) a.smId sm'
+      pure (mkResp ep 0 r (some (.qual a.smId (pathOpt a) t)) (fun _ => .item (.qual t v)))
+  | _ => liftR (.py .unknownClass)
+
+def putQual (ep : String) (a : Args) (r : Req) : M Resp := do
+  let (sm, path, e) ← getSmOrNested a
+  let p ← liftR (requestBody ep r)
+  match p, a.qType with
+  | .qual t v, some qt =>
+    if ¬ AList.has qt e.quals then liftR (catching "_qualifiable_qualifier_op" (.py .keyError))
+    else if qt ≠ t ∧ AList.has t e.quals then liftR (raiseOf ep 0)
+    else do
+      let sm' := smWithRoot sm (modifyAt (fun x => x.withQuals (AList.erase qt x.quals ++ [(t, v)])) sm.root path)
+      live a.smId sm'
+      commitObj (commitsOf ep) a.smId sm'
+      if qt ≠ t then pure (mkResp ep 0 r (some (.qual a.smId (pathOpt a) t)) (fun _ => .item (.qual t v)))
+      else pure (mkResp ep 1 r none (fun _ => .item (.qual t v)))
+  | _, _ => liftR (.py .unknownClass)
+
+def deleteQual (ep : String) (a : Args) (r : Req) : M Resp := do
+  let (sm, path, e) ← getSmOrNested a
+  match a.qType with
+  | some qt =>
+    if ¬ AList.has qt e.quals then liftR (catching "_qualifiable_qualifier_op" (.py .keyError))
+    else do
+      let sm' := smWithRoot sm (modifyAt (fun x => x.withQuals (AList.erase qt x.quals)) sm.root path)
+      live a.smId sm'
+      commitObj (commitsOf ep) a.smId sm'
+      pure (mkResp ep 0 r none (fun _ => .empty))
+  | none => liftR (.py .unknownClass)
+
+def listObjs (ep : String) (k : OKind) (r : Req) : M Resp := do
+  let s ← getSt
+  listPage ep r ((allOfKind s k).map .obj)
+
+/-- endpoint name ↦ handler (`none`: the route exists, the handler is outside the model) -/
+def handlerOf (ep : String) (a : Args) (r : Req) : Option (M Resp) :=
+  match ep with
+  | "not_implemented" => some (liftR (raiseOf "not_implemented" 0))
+  | "get_aas_all" => some (listObjs ep .shell r)
+  | "post_aas" => some (postObj ep .shell r)
+  | "get_aas" => some (getObj ep a.aasId .shell r)
+  | "put_aas" => some (putObj ep a.aasId .shell r)
+  | "delete_aas" => some (deleteObj ep a.aasId .shell r)
+  | "get_aas_submodel_refs" => some (getRefs ep a r)
+  | "post_aas_submodel_refs" => some (postRef ep a r)
+  | "delete_aas_submodel_refs_specific" => some (deleteRef ep a r)
+  | "get_submodel_all" => some (listObjs ep .sm r)
+  | "get_submodel_all_metadata" => some (listObjs ep .sm r)
+  | "post_submodel" => some (postObj ep .sm r)
+  | "get_submodel" => some (getObj ep a.smId .sm r)
+  | "get_submodels_metadata" => some (getObj ep a.smId .sm r)
+  | "put_submodel" => some (putObj ep a.smId .sm r)
+  | "delete_submodel" => some (deleteObj ep a.smId .sm r)
+  | "get_submodel_submodel_elements" => some (listElems ep a r)
+  | "get_submodel_submodel_elements_metadata" => some (listElems ep a r)
+  | "get_submodel_submodel_elements_id_short_path" => some (getElem ep a r)
+  | "get_submodel_submodel_elements_id_short_path_metadata" => some (getElem ep a r)
+  | "post_submodel_submodel_elements_id_short_path" => some (postElem ep a r)
+  | "put_submodel_submodel_elements_id_short_path" => some (putElem ep a r)
+  | "delete_submodel_submodel_elements_id_short_path" => some (deleteElem ep a r)
+  | "get_submodel_submodel_element_qualifiers" => some (getQual ep a r)
+  | "post_submodel_submodel_element_qualifiers" => some (postQual ep a r)
+  | "put_submodel_submodel_element_qualifiers" => some (putQual ep a r)
+  | "delete_submodel_submodel_element_qualifiers" => some (deleteQual ep a r)
+  | "get_concept_description_all" => some (listObjs ep .cd r)
+  | "post_concept_description" => some (postObj ep .cd r)
+  | "get_concept_description" => some (getObj ep a.cdId .cd r)
+  | "put_concept_description" => some (putObj ep a.cdId .cd r)
+  | "delete_concept_description" => some (deleteObj ep a.cdId .cd r)
+  | _ => none
+
+def dispatch (ep : String) (a : Args) (r : Req) : M Out :=
+  match handlerOf ep a r with
+  | some h => Out.resp <$> h
+  | none => pure .unmodelled
 
 /-- `http_exception_to_response` for codes ≥ 400 -/
 def errResp (code : Nat) : Resp := ⟨code, none, .result⟩
